@@ -414,6 +414,8 @@ func runC17(c *config) {
 			o.Sample(map[string]interface{}{"src": src, "refs": refs})
 		}
 	}
+	// 2b. two attachments on every instruction and terminator kind, in every syntactic variant (c17carriers.go)
+	c17CarrierRun(c, newRng(c.seed, "c17carriers"))
 	// 3. corpus modules with real debug info: identity and fixpoint; also with every specialised definition
 	// written in place once more (inlineVariant, shared with C04)
 	files, _ := filepath.Glob("/verif/corpus/modules/*.ll")
